@@ -52,6 +52,14 @@ CHECKS = {
             'run-length encoding of the coordinate order, every molecule-type file is included exactly once, the k-th PDB/GRO record of every '
             'molecule equals the k-th ITP atom, and molecules sharing a name have byte-identical separately written topologies.',
             'Four-atom molecules, <=4 molecules per system.', '§4 C03'),
+    'C16': ('B', 'bounded exhaustive product of field-boundary values and atom-count/bond-pattern boundaries through the real PDB/GRO writers and readers, per-field column-rule oracle',
+            'model_checking',
+            'Full products of residue numbers {-1,0,1,9999,10000,99999,100000} x name lengths 1..6 (atom and residue) x chain, of 9-10 '
+            'coordinate values per axis across and beyond the representable range, and of resid x coordinate x name overflow, on two-molecule '
+            'systems, for PDB and GRO; atom counts 1,2,3,12,9998,10000,10001 (thorough 9997..10001, 99997..100000) x 1/2/3-molecule splits '
+            'x bond patterns (path, stars of degree 1..9, bonds around serial 9999/10000, first-last) for PDB CONECT/TER. Each read-back field '
+            'is judged by its own column rule, so a shifted column is a mismatch even where another field overflowed.',
+            'Names without blanks; an overflowing field may return any width-long prefix or suffix of its text.', '§4 C16'),
     'C07': ('A+D', 'explicit-state BFS over deferred-writer histories with a dict file-system model; exhaustive crash-point/torn-write enumeration of every finalisation; audit-hook monitor over all library writers; full product of a CLI run alphabet through the script\'s own entry() bound to real sub-processes',
             'model_checking',
             'Four layers. (1) every enabled operation (open w/a/r+/wb incl. re-opens, files appearing from outside, write, close) in every '
